@@ -39,7 +39,7 @@ def handleW (h : String) : String :=
   | some bs =>
     match decodeAll bs with
     | none => "w=0 work=0"
-    | some ops => s!"w={weight ops} work={weighWork ops}"
+    | some ops => s!"w={weightDP ops} work={weighWorkDP ops}"
 
 def handleRun (prog heap orc : String) : String :=
   match bytesOfHex prog, parseHeap heap, parseOracles orc with
